@@ -509,13 +509,19 @@ def unit_gtf_init(U):
     _unit_gtf_init1(U, "symbolic")
 
 
+def unit_gtf_init_for(prefix):
+    def unit(U):
+        _unit_gtf_init1(U, "awkward", prefix=prefix)
+    return unit
+
+
 def unit_gtf_init_awkward(U):
     """the same clause on concrete strings that any folding / trimming / normalising would change (decides also where the
     symbolic run is beyond the string models)"""
     _unit_gtf_init1(U, "awkward")
 
 
-def _unit_gtf_init1(U, variant):
+def _unit_gtf_init1(U, variant, prefix="C03"):
     it = Interp()
     if variant == "symbolic":
         tk, gk, sf = (SStr([Val(z3.String(n), nonempty=True)]) for n in ("transcript_key", "gene_key", "subfeature"))
@@ -526,7 +532,10 @@ def _unit_gtf_init1(U, variant):
     def run(ctx):
         it.contracts[IT.DataIterator] = lambda interp, a, k: ("iterator", k)
         cr = object.__new__(C._GTFDBCreator)
-        it.call(C._GTFDBCreator.__init__, [cr, "<data>", ghostdb.GhostConn()], {"transcript_key": tk, "gene_key": gk, "subfeature": sf, "id_spec": {"gene": "gn"}})
+        spec = {"gene": "gene_id", "transcript": ["transcript_id", "Name"], "exon": "gn"}
+        ctx.stash["spec"] = spec
+        ctx.stash["spec_copy"] = {k: (list(v) if isinstance(v, list) else v) for k, v in spec.items()}
+        it.call(C._GTFDBCreator.__init__, [cr, "<data>", ghostdb.GhostConn()], {"transcript_key": tk, "gene_key": gk, "subfeature": sf, "id_spec": spec})
         return cr
 
     def replay(m):
@@ -539,13 +548,26 @@ def _unit_gtf_init1(U, variant):
                                     id_spec={"gene": "locus", "transcript": "isoform"})
         got = sorted((f.id, f.featuretype, f.start, f.end) for f in db.all_features() if f.featuretype in ("gene", "transcript"))
         exp = [("G1", "gene", 5, 40), ("T1", "transcript", 5, 40)]
+        if got == exp:
+            # explicit gene / transcript lines keyed by the standard attributes while the RELATIONS use other keys
+            text2 = ('c\ts\tgene\t1\t90\t.\t+\t.\tgene_id "G1"; gene_name "ABC";\nc\ts\ttranscript\t1\t90\t.\t+\t.\tgene_id "G1"; gene_name "ABC"; transcript_id "T1"; transcript_name "ABC-201";\n'
+                     'c\ts\texon\t5\t20\t.\t+\t.\tgene_id "G1"; gene_name "ABC"; transcript_id "T1"; transcript_name "ABC-201";\n')
+            with warnings.catch_warnings():
+                warnings.simplefilter("ignore")
+                db2 = gffutils.create_db(text2, ":memory:", from_string=True, gtf_gene_key="gene_name", gtf_transcript_key="transcript_name",
+                                         id_spec={"gene": "gene_id", "transcript": "transcript_id"}, disable_infer_genes=True, disable_infer_transcripts=True)
+            got2 = sorted(f.id for f in db2.all_features() if f.featuretype in ("gene", "transcript"))
+            if got2 != ["G1", "T1"]:
+                return {"inputs": {"text": text2, "gtf_gene_key": "gene_name", "gtf_transcript_key": "transcript_name", "id_spec": {"gene": "gene_id", "transcript": "transcript_id"}},
+                        "expected": ["G1", "T1"], "observed": got2, "violates": True}
         return {"inputs": {"text": text, "gtf_subfeature": "CDS", "gtf_gene_key": "locus", "gtf_transcript_key": "isoform"}, "expected": exp, "observed": got, "violates": got != exp}
     for p in U.explore(run, it):
         ok = p.kind == "return"
         if ok:
             cr = p.value
-            ok = getattr(cr, "transcript_key", None) is tk and getattr(cr, "gene_key", None) is gk and getattr(cr, "subfeature", None) is sf and cr.id_spec == {"gene": "gn"}
-        U.prove("C03.gtf.init.keys[%s]#p%d" % (variant, p.index), "transcript_key, gene_key and subfeature are stored as given (no case folding, stripping or defaulting), id_spec as given", [], z3.BoolVal(bool(ok)), {}, replay=replay)
+            ok = (getattr(cr, "transcript_key", None) is tk and getattr(cr, "gene_key", None) is gk and getattr(cr, "subfeature", None) is sf
+                  and cr.id_spec == p.ctx.stash["spec_copy"] and p.ctx.stash["spec"] == p.ctx.stash["spec_copy"])
+        U.prove("%s.gtf.init.keys[%s]#p%d" % (prefix, variant, p.index), "transcript_key, gene_key and subfeature are stored as given (no case folding, stripping or defaulting); the id_spec is the one given, entry by entry - the keys that define the RELATIONS do not change which attribute is the primary key", [], z3.BoolVal(bool(ok)), {}, replay=replay)
 
 
 UNITS = [("gtf.init", unit_gtf_init), ("gtf.init.awkward", unit_gtf_init_awkward), ("block", unit_block), ("finish", unit_finish), ("finish_collision", unit_finish_collision), ("route", unit_route), ("driving_query", unit_driving_query)]
